@@ -53,6 +53,10 @@ def _mentions_outside(t, name, stop_ops):
 
 
 def check(ctx):
+    # positional parameters keep their documented positions (a reordering survives every keyword call)
+    from ..sigrules import signatures as _signatures
+
+    _signatures(ctx, "R-SIG", functions=('skmatter.metrics.pointwise_global_reconstruction_error', 'skmatter.metrics.global_reconstruction_error', 'skmatter.metrics.pointwise_global_reconstruction_distortion', 'skmatter.metrics.global_reconstruction_distortion', 'skmatter.metrics.pointwise_local_reconstruction_error', 'skmatter.metrics.local_reconstruction_error'))
     P = ctx.P
     N = ctx.normalizer()
     # the default estimators are part of the measures' definition: GRE(X, XA) = 0 rests on the ridge
